@@ -1223,7 +1223,7 @@ func toString(v interface{}) string {
 	case int64:
 		return strconv.FormatInt(val, 10)
 	case float64:
-		return strconv.FormatFloat(val, 'f', -1, 64)
+		return strconv.FormatFloat(val+0, 'f', -1, 64) // val+0: a negative zero prints as 0
 	case bool:
 		return strconv.FormatBool(val)
 	case []byte:
